@@ -15,13 +15,16 @@ from .c11 import cmp_repr
 
 ID = 'C19'
 TITLE = 'deepcopy / pickle reproduce any tree'
-RULE = ('(A) one parsed document over the full tag vocabulary (all node kinds incl. structural ones, flags and metadata on every kind) and '
+RULE = ('(A) one parsed document over the full tag vocabulary (all node kinds incl. structural ones, flags and metadata on every kind, yaml '
+        'aliases of containers and function / path nodes) and '
         '(B) trees merged from 1-3 such documents without structural kinds, substituted as older and as newer stage against random tagged '
         'stages X, Y and evaluated; copies by copy.deepcopy and by a pickle round trip; then a mutation of copy or original; '
         'non-trivial = depth >=2 with >=1 explicit and >=1 inherited flag, or a function/path node with children; distinct = hash of the case')
 BUDGET = {'quick': (4, 250), 'thorough': (16, 4000)}
 SHRINK_CAP = {'quick': 300, 'thorough': 3000}
-ASSUMPTIONS = ['node-by-node equality covers kinds, content, priority, safety, targets / reference points / file names, metadata and the public '
+ASSUMPTIONS = ['documents in which an aliased node is adopted by parents handing down different inherited flags are skipped (one node object holds one set of inherited flags; the original then depends on adoption order)',
+               'the copy must have the same sharing pattern as the original (paths holding one node object), ' 
+               'node-by-node equality covers kinds, content, priority, safety, targets / reference points / file names, metadata and the public '
                'delete / explicit_delete / allow_new flags (any difference there is observable by some later merge); behaviour is compared as well']
 
 
@@ -30,10 +33,10 @@ def _case(draw):
     fam = draw(st.sampled_from(['A', 'B', 'B']))
     case = {'fam': fam, 'mut': [draw(st.integers(0, 20)), draw(st.sampled_from(['set', 'del', 'md', 'append'])), draw(st.booleans())]}
     if fam == 'A':
-        case['docs'] = [draw(S.full_doc(allow_structural=True))]
+        case['docs'] = [draw(S.full_doc(allow_structural=True, aliases='all'))]
     else:
         n = draw(st.sampled_from([1, 2, 2, 3]))
-        case['docs'] = [draw(S.full_doc(allow_structural=False)) for _ in range(n)]
+        case['docs'] = [draw(S.full_doc(allow_structural=False, aliases='all')) for _ in range(n)]
         case['X'] = draw(S.tagged_stages(min_stages=1, max_stages=1, keys=S.MERGE_KEYS_NONEG, neg=False, density=3))[0]
         case['Y'] = draw(S.tagged_stages(min_stages=1, max_stages=1, keys=S.MERGE_KEYS_NONEG, neg=False, density=3))[0]
     return case
@@ -106,6 +109,60 @@ def well_formed(tree):
     return True
 
 
+def alias_context_conflict(doc):
+    """True iff some anchored node is adopted (at its definition or through an alias, also inside other aliased subtrees) by parents that
+    hand down different inherited flags.  One node object can hold one set of inherited flags only, so what such a document
+    means is not defined - the original tree itself then depends on which parent adopted the node last."""
+    defs = {n['anchor']: n for _, n in tdoc.walk(doc) if n.get('anchor')}
+    seen = {}
+
+    def child_ctx(n, ctx):
+        d, nw, us, pr = ctx
+        if n.get('del') is not None:
+            d = n['del']
+        elif n['t'] == 'seq':
+            d = True
+        if n.get('new') is not None:
+            nw = n['new']
+        if n.get('unsafe'):
+            us = True
+        if n.get('prio') is not None:
+            pr = n['prio']
+        return (d, nw, us, pr)
+
+    def rec(n, ctx, depth=0):
+        if depth > 12:
+            return
+        if n['t'] == 'alias':
+            seen.setdefault(n['name'], set()).add(ctx)
+            if n['name'] in defs:
+                body = defs[n['name']]
+                inner(body, ctx, depth + 1)
+            return
+        if n.get('anchor'):
+            seen.setdefault(n['anchor'], set()).add(ctx)
+        inner(n, ctx, depth)
+
+    def inner(n, ctx, depth):
+        c = child_ctx(n, ctx)
+        if n['t'] == 'map':
+            for _, v in n['items']:
+                rec(v, c, depth + 1)
+        elif n['t'] == 'seq':
+            for v in n['items']:
+                rec(v, c, depth + 1)
+    rec(doc, (None, None, None, None))
+    return any(len(v) > 1 for v in seen.values())
+
+
+def sharing(tree):
+    """Which paths hold one and the same node object: set of groups (>= 2 paths) - yaml aliases and merges create such trees."""
+    groups = {}
+    for p, n in tree.ayns.nodes_with_paths(include_self=True, allow_duplicates=True):
+        groups.setdefault(id(n), []).append(str(p))
+    return sorted(sorted(g) for g in groups.values() if len(g) >= 2)
+
+
 def all_ids(tree):
     return {id(n) for n in tree.ayns.nodes(include_self=True, allow_duplicates=True)}
 
@@ -134,6 +191,9 @@ def run_case(case):
     src = '\nsources:\n' + '\n'.join(texts)
     fam = case['fam']
     labels = {'fam=' + fam, 'stages=%d' % len(texts)}
+
+    if any(alias_context_conflict(d) for d in case['docs']):
+        return Outcome(labels=['skip-shared-node-under-differently-flagged-parents'])
 
     def make():
         return parse_one(texts[0]) if fam == 'A' else merged(texts)
@@ -164,6 +224,13 @@ def run_case(case):
             raise Violation(f'C19: {name} copy differs from the original, first differences (original, copy): {diff}{src}')
         if snapshot(t) != snap0:
             raise Violation(f'C19: {name} modified the original tree{src}')
+        sh_o, sh_c = sharing(t), sharing(c)
+        if sh_o != sh_c:
+            raise Violation(f'C19: in the original these groups of paths hold one node object each: {sh_o}; in the {name} copy: {sh_c} '
+                            f'(a shared node merges and evaluates as one node){src}')
+        if sh_o:
+            labels.add('shared-nodes')
+            nontrivial = True
         shared = all_ids(t) & all_ids(c)
         if shared:
             raise Violation(f'C19: {name} copy shares {len(shared)} node objects with the original{src}')
